@@ -1,10 +1,12 @@
 /-
 C16 — Loading is independent of lexical spelling and of earlier loads.
-PARTIAL: proved at the level of the element searches the loader is built from (every access to the document goes
-through them) and for the loader-state bookkeeping; the lifting through all ~40 `from_xml` functions is carried by the
-correspondence check, not by a theorem.
+Proved for the whole loader model: the element searches commute with comment removal and with a change of namespace
+convention (this file), every `from_xml` function is invariant under any such rendering (Lemmas/Render.lean), hence
+`load_ignores_comments` and `load_ignores_namespace_convention` for `loadXtce` itself; the loader-state bookkeeping
+gives independence from earlier loads.  PARTIAL only in what the tree model leaves out: lxml's text/tail handling of
+whitespace and of comments inside character data, which the correspondence check covers on real documents.
 -/
-import Spp.Model.XmlLoad
+import Spp.Lemmas.Render
 namespace Spp.C16
 open Spp
 
@@ -124,6 +126,236 @@ theorem findAll_spelling (u v : Option String) (path : List Step) (x : XmlNode) 
         simp only [List.map_cons, List.flatten_cons, List.length_append, List.map_append, Function.comp] at ihy ⊢
         obtain ⟨i1, i2⟩ := ih y
         exact ⟨by omega, by rw [i2, ihy.2]⟩
+
+/-! ### the whole loader: comments -/
+
+mutual
+theorem descendants_strip : ∀ x : XmlNode, descendants (stripComments x) = (descendants x).map stripComments
+  | .elem n t a tx c => by
+    simp only [stripComments, descendants]
+    exact descendantsList_strip c
+  | .comment s => by simp [stripComments, descendants]
+theorem descendantsList_strip : ∀ l : List XmlNode,
+    descendantsList (stripList l) = (descendantsList l).map stripComments
+  | [] => by simp [stripList, descendantsList]
+  | x :: xs => by
+    simp only [stripList]
+    by_cases hx : x.isElem = true
+    · simp only [hx, if_true, descendantsList, strip_isElem, List.map_append, descendants_strip x,
+        descendantsList_strip xs, List.map_cons, List.map_nil]
+    · have : descendants x = [] := by cases x <;> simp_all [XmlNode.isElem, descendants]
+      simp only [hx, Bool.false_eq_true, if_false, descendantsList, this, descendantsList_strip xs, List.map_append,
+        List.map_nil, List.nil_append]
+end
+
+theorem findDescendant_strip (ens : Option String) (tag : String) (x : XmlNode) :
+    findDescendant ens tag (stripComments x) = (findDescendant ens tag x).map stripComments := by
+  simp only [findDescendant, descendants_strip, List.find?_map]
+  have : ((fun e : XmlNode => e.tag == tag && e.ns == ens) ∘ stripComments) = (fun e => e.tag == tag && e.ns == ens) := by
+    funext e
+    simp [Function.comp, strip_tag, strip_ns]
+  rw [this]
+
+/-- Removing comments is a rendering (of every document, for any expected namespace). -/
+theorem stripRendering (ens : Option String) : Rendering ens ens stripComments (fun _ => True) where
+  kids_dom := fun _ _ _ _ => trivial
+  attrs := strip_attrs
+  tag := strip_tag
+  isElem := strip_isElem
+  text := strip_text
+  elems := elems_strip
+  findAll := fun path x _ => findAll_strip ens path x
+  findDesc := fun tag x _ => findDescendant_strip ens tag x
+
+/-- **Comments placed between elements change nothing**: loading a document and loading it with every comment
+    removed give the same definition, or fail with the same error. -/
+theorem load_ignores_comments (ctx : NsCtx) (rootName : String) (x : XmlNode) :
+    loadXtce ctx rootName (stripComments x) = loadXtce ctx rootName x := by
+  cases he : ctx.expected with
+  | error e => simp [loadXtce, he, bind, Except.bind]
+  | ok ens => exact (stripRendering ens).loadXtce ctx ctx rootName x trivial he he rfl rfl
+
+/-! ### the whole loader: namespace convention -/
+
+/-- Every element of the document lies in namespace `v`. -/
+def InNs (v : Option String) (x : XmlNode) : Prop := setNs v x = x
+
+mutual
+theorem setNs_setNs (u v : Option String) : ∀ x : XmlNode, setNs u (setNs v x) = setNs u x
+  | .elem n t a tx c => by simp only [setNs]; rw [setNsList_setNsList u v c]
+  | .comment s => by simp [setNs]
+theorem setNsList_setNsList (u v : Option String) : ∀ l : List XmlNode, setNsList u (setNsList v l) = setNsList u l
+  | [] => by simp [setNsList]
+  | x :: xs => by simp only [setNsList]; rw [setNs_setNs u v x, setNsList_setNsList u v xs]
+end
+
+theorem inNs_setNs (v : Option String) (x : XmlNode) : InNs v (setNs v x) := setNs_setNs v v x
+
+theorem inNs_kids (v : Option String) (x : XmlNode) (h : InNs v x) : ∀ k ∈ x.kids, InNs v k := by
+  cases x with
+  | comment s => intro k hk; simp [XmlNode.kids] at hk
+  | elem n t a tx c =>
+    intro k hk
+    simp only [InNs, setNs, setNsList_eq] at h
+    injection h with _ _ _ _ hc
+    simp only [XmlNode.kids] at hk
+    have : ∀ l : List XmlNode, l.map (setNs v) = l → ∀ k ∈ l, setNs v k = k := by
+      intro l
+      induction l with
+      | nil => intro _ k hk; simp at hk
+      | cons y ys ih =>
+        intro hl k hk
+        simp only [List.map_cons] at hl
+        injection hl with h1 h2
+        simp only [List.mem_cons] at hk
+        rcases hk with rfl | hk
+        · exact h1
+        · exact ih h2 k hk
+    exact this c hc k hk
+
+theorem inNs_ns (v : Option String) (x : XmlNode) (h : InNs v x) (he : x.isElem = true) : x.ns = v := by
+  cases x with
+  | comment s => simp [XmlNode.isElem] at he
+  | elem n t a tx c =>
+    simp only [InNs, setNs] at h
+    injection h with h1
+    simp [XmlNode.ns, h1.symm]
+
+theorem setNs_attrs (u : Option String) (x : XmlNode) : (setNs u x).attrs = x.attrs := by cases x <;> simp [setNs, XmlNode.attrs]
+theorem setNs_tag (u : Option String) (x : XmlNode) : (setNs u x).tag = x.tag := by cases x <;> simp [setNs, XmlNode.tag]
+theorem setNs_isElem (u : Option String) (x : XmlNode) : (setNs u x).isElem = x.isElem := by
+  cases x <;> simp [setNs, XmlNode.isElem]
+theorem setNs_text (u : Option String) (x : XmlNode) : (setNs u x).text = x.text := by cases x <;> simp [setNs, XmlNode.text]
+theorem setNs_ns (u : Option String) (x : XmlNode) (he : x.isElem = true) : (setNs u x).ns = u := by
+  cases x <;> simp_all [setNs, XmlNode.ns, XmlNode.isElem]
+
+theorem setNs_elems (u : Option String) (x : XmlNode) : (setNs u x).elems = x.elems.map (setNs u) := by
+  cases x with
+  | comment s => simp [setNs, XmlNode.elems, XmlNode.kids]
+  | elem n t a tx c =>
+    simp only [setNs, XmlNode.elems, XmlNode.kids, setNsList_eq, List.filter_map]
+    congr 1
+    apply List.filter_congr
+    intro y _
+    simp [Function.comp, setNs_isElem]
+
+theorem matches_inNs (u v : Option String) (s : Step) (e : XmlNode) (h : InNs v e) :
+    s.matches u (setNs u e) = s.matches v e := by
+  by_cases he : e.isElem = true
+  · simp [Step.matches, setNs_isElem, setNs_tag, setNs_ns u e he, inNs_ns v e h he, XmlNode.attr?, setNs_attrs]
+  · simp [Step.matches, setNs_isElem, he]
+
+theorem findAll_inNs (u v : Option String) (path : List Step) (x : XmlNode) (h : InNs v x) :
+    findAll u path (setNs u x) = (findAll v path x).map (setNs u) := by
+  induction path generalizing x with
+  | nil => simp [findAll]
+  | cons s rest ih =>
+    cases x with
+    | comment c => simp [findAll, setNs, XmlNode.kids]
+    | elem n t a tx kids =>
+      have hk := inNs_kids v _ h
+      simp only [XmlNode.kids] at hk
+      simp only [findAll, setNs, XmlNode.kids, setNsList_eq, List.filter_map, List.map_map]
+      have hf : List.filter (s.matches u ∘ setNs u) kids = List.filter (s.matches v) kids := by
+        apply List.filter_congr
+        intro y hy
+        simp only [Function.comp, matches_inNs u v s y (hk y hy)]
+      rw [hf]
+      have : ∀ sel : List XmlNode, (∀ y ∈ sel, InNs v y) →
+          (List.map (findAll u rest ∘ setNs u) sel).flatten
+            = List.map (setNs u) (List.map (findAll v rest) sel).flatten := by
+        intro sel
+        induction sel with
+        | nil => intro _; simp
+        | cons y ys ihy =>
+          intro hs
+          simp only [List.map_cons, List.flatten_cons, List.map_append, Function.comp,
+            ih y (hs y (by simp)), ihy (fun z hz => hs z (by simp [hz]))]
+      exact this _ (fun y hy => hk y (List.mem_filter.mp hy).1)
+
+mutual
+theorem descendants_setNs (u : Option String) : ∀ x : XmlNode, descendants (setNs u x) = (descendants x).map (setNs u)
+  | .elem n t a tx c => by simp only [setNs, descendants]; exact descendantsList_setNs u c
+  | .comment s => by simp [setNs, descendants]
+theorem descendantsList_setNs (u : Option String) : ∀ l : List XmlNode,
+    descendantsList (setNsList u l) = (descendantsList l).map (setNs u)
+  | [] => by simp [setNsList, descendantsList]
+  | x :: xs => by
+    simp only [setNsList, descendantsList, setNs_isElem, descendants_setNs u x, descendantsList_setNs u xs,
+      List.map_append]
+    by_cases hx : x.isElem = true <;> simp [hx]
+end
+
+mutual
+theorem descendants_inNs (v : Option String) : ∀ x : XmlNode, InNs v x → ∀ e ∈ descendants x, InNs v e ∧ e.isElem = true
+  | .elem n t a tx c, h, e, he => by
+    simp only [descendants] at he
+    exact descendantsList_inNs v c (fun k hk => inNs_kids v _ h k (by simpa [XmlNode.kids] using hk)) e he
+  | .comment _, _, e, he => by simp [descendants] at he
+theorem descendantsList_inNs (v : Option String) : ∀ l : List XmlNode, (∀ k ∈ l, InNs v k) →
+    ∀ e ∈ descendantsList l, InNs v e ∧ e.isElem = true
+  | [], _, e, he => by simp [descendantsList] at he
+  | x :: xs, h, e, he => by
+    simp only [descendantsList, List.mem_append] at he
+    rcases he with (he | he) | he
+    · split at he
+      · rename_i hx
+        simp only [List.mem_singleton] at he; rw [he]; exact ⟨h x (by simp), hx⟩
+      · simp at he
+    · exact descendants_inNs v x (h x (by simp)) e he
+    · exact descendantsList_inNs v xs (fun k hk => h k (by simp [hk])) e he
+end
+
+theorem findDescendant_inNs (u v : Option String) (tag : String) (x : XmlNode) (h : InNs v x) :
+    findDescendant u tag (setNs u x) = (findDescendant v tag x).map (setNs u) := by
+  simp only [findDescendant, descendants_setNs]
+  have : ∀ l : List XmlNode, (∀ e ∈ l, InNs v e ∧ e.isElem = true) →
+      (l.map (setNs u)).find? (fun e => e.tag == tag && e.ns == u)
+        = (l.find? (fun e => e.tag == tag && e.ns == v)).map (setNs u) := by
+    intro l
+    induction l with
+    | nil => intro _; rfl
+    | cons y ys ih =>
+      intro hl
+      obtain ⟨hy1, hy2⟩ := hl y (by simp)
+      simp only [List.map_cons, List.find?_cons, setNs_tag, setNs_ns u y hy2, inNs_ns v y hy1 hy2, BEq.rfl,
+        Bool.and_true]
+      cases y.tag == tag
+      · simpa using ih (fun e he => hl e (by simp [he]))
+      · rfl
+  exact this _ (descendants_inNs v x h)
+
+/-- Moving a document from namespace `v` to namespace `u` (a prefix of any name and a default namespace denote a
+    URI; no namespace is `none`) is a rendering, for searches that expect `v` before and `u` after. -/
+theorem nsRendering (u v : Option String) : Rendering v u (setNs u) (InNs v) where
+  kids_dom := inNs_kids v
+  attrs := setNs_attrs u
+  tag := setNs_tag u
+  isElem := setNs_isElem u
+  text := fun x _ => setNs_text u x
+  elems := setNs_elems u
+  findAll := fun path x h => findAll_inNs u v path x h
+  findDesc := fun tag x h => findDescendant_inNs u v tag x h
+
+/-- **The namespace convention changes nothing**: the same abstract document written with every element in
+    namespace `u` (loaded with a context that expects `u`) and with every element in namespace `v` (loaded with a
+    context that expects `v`) — prefixed with any prefix name, default namespace, or no namespace at all — loads to
+    the same definition, or fails with the same error; only the recorded prefix / nsmap differ. -/
+theorem load_ignores_namespace_convention (ctxU ctxV : NsCtx) (u v : Option String)
+    (hU : ctxU.expected = .ok u) (hV : ctxV.expected = .ok v) (rootName : String) (x : XmlNode) :
+    (loadXtce ctxU rootName (setNs u x)).map LDef.core = (loadXtce ctxV rootName (setNs v x)).map LDef.core := by
+  have := (nsRendering u v).loadXtce_core ctxV ctxU rootName (setNs v x) (inNs_setNs v x) hV hU
+  rwa [setNs_setNs] at this
+
+/-- Non-vacuity: the three conventions give contexts whose expected namespace is determined. -/
+example : ({ nsPrefix := some "xtce", nsmap := [(some "xtce", "urn:x"), (some "xsi", "urn:y")] } : NsCtx).expected
+    = .ok (some "urn:x") := by simp [NsCtx.expected, List.find?]
+example : ({ nsPrefix := none, nsmap := [(none, "urn:x")] } : NsCtx).expected = .ok (some "urn:x") := by
+  simp [NsCtx.expected, List.find?]
+example : ({ nsPrefix := none, nsmap := [(some "xsi", "urn:y")] } : NsCtx).expected = .ok none := by
+  simp [NsCtx.expected, List.find?]
+example : InNs (some "urn:x") (.elem (some "urn:x") "A" [] none [.comment "c", .elem (some "urn:x") "B" [] none []]) := by
+  simp [InNs, setNs, setNsList]
 
 /-! ### earlier loads -/
 
